@@ -909,6 +909,12 @@ type case04 struct {
 	AllowName bool   `json:"allow_name,omitempty"`
 	AllowKind bool   `json:"allow_kind,omitempty"`
 	Note    string `json:"note,omitempty"`
+	// differential oracle families (harness/c04fam.go): Family != "" ("anchors", "schema")
+	Family     string `json:"family,omitempty"`
+	PatchPlain string `json:"patch_plain,omitempty"` // anchors: the patch written out; schema: the patch for the twin kind
+	Schema     string `json:"schema,omitempty"`      // schema: the custom OpenAPI schema text
+	Variant    string `json:"variant,omitempty"`
+	Twin       string `json:"twin,omitempty"` // schema: the target as the custom kind with copied definitions
 }
 
 func mergeOpts(prepend bool) kyaml.MergeOptions {
@@ -1113,6 +1119,10 @@ func runC04(r *Run, rng *Rng, tier string) error {
 	// replay seed 1 shifted by one case): decorrelate by forking once.
 	rng = rng.Fork()
 	for _, c := range loadCorpus04() {
+		if c.Family != "" {
+			runFam04(r, c)
+			continue
+		}
 		if c.Level != "" {
 			runIdent04(r, c)
 			continue
@@ -1130,6 +1140,17 @@ func runC04(r *Run, rng *Rng, tier string) error {
 	}
 	for i := 0; i < nIdent; i++ {
 		runIdent04(r, genIdent04(rng.Fork()))
+	}
+	// differential families: anchored patches, custom schemas that re-declare built-in definitions
+	nFam := 60
+	if tier == "thorough" {
+		nFam = 240
+	}
+	for i := 0; i < nFam; i++ {
+		runFam04(r, genAnchors04(rng.Fork()))
+	}
+	for i := 0; i < nFam/2; i++ {
+		runFam04(r, genSchema04(rng.Fork()))
 	}
 	r.header += internHeader()
 	r.shard = 100
@@ -1191,6 +1212,20 @@ func replayC04(path string) (bool, string, error) {
 	}
 	if err := json.Unmarshal(data, &rp); err != nil {
 		return false, "", err
+	}
+	if rp.Case.Family != "" {
+		known := knownClasses("C04")
+		detail := "family " + rp.Case.Family + " " + rp.Case.Note
+		bad := 0
+		vs, outcome := lawsFam04(rp.Case)
+		detail += " outcome=" + outcome
+		for _, v := range vs {
+			if !known[v.Class] {
+				bad++
+			}
+			detail += fmt.Sprintf("\nLAW %s class=%s: %s", v.Law, v.Class, v.Detail)
+		}
+		return bad > 0, detail, nil
 	}
 	if rp.Case.Level != "" {
 		known := knownClasses("C04")
